@@ -32,6 +32,13 @@ CHECKS = {
         design='3/C08'),
 }
 
+CHECKS['C13'] = dict(
+    level='exploration', engine='ENUM',
+    technique='bounded-exhaustive enumeration of all DAG sharing patterns through nodes.reduplicate (function part); ids at every generator construction along all explored runs (history part, SCHED)',
+    text='Function part: every forest of <=3 trees with <=6 (thorough 7) nodes with every sharing pattern (which equal subtrees are one object, incl. shared empty lists and 2-of-3 sharings; 30 k DAGs quick) goes through the real nodes.reduplicate; ids must be pairwise distinct afterwards, the token sequence unchanged, and nodes that were unique keep their identity.',
+    note='Trusted: DAG enumerator and oracle in ddv/checks/c13.py.',
+    design='3/C13')
+
 ENGINES = [
     dict(name='ENUM', path='ddv/sexp.py', serves_properties=['C07', 'C08', 'C09', 'C11', 'C12', 'C13', 'C14', 'C16', 'C17'],
          kind_free_text='bounded-exhaustive enumerators (trees, DAG sharing patterns, lexeme sequences, option sequences) + independent reference models'),
